@@ -295,7 +295,8 @@ def name_sources(chk, fb, RID="R04.5"):
             return any("String" in t and ("SmallVec<" in t or "Vec<" in t or t.startswith("&mut [")) for t in tys)
 
         def inline_closure(self, closure_path, args, interp, path):
-            return False
+            # a local `push_if_new` closure that is called directly is part of the constructor
+            return closure_path.startswith("expression::deep")
     allp = Interp(fb, P()).run(b, [Sym(b["locals"][i].get("name") or "a%d" % i) for i in range(1, b["arg_count"] + 1)])
     GROW = ("push", "extend", "extend_from_slice", "insert", "insert_many", "append")
     from_var = from_nested = other = 0
